@@ -1,10 +1,53 @@
 /-
-C14 — memory budgets: the streaming decoder never holds buffers larger than the documented function of its window limit,
-and refuses frames that need more.
+C14 — memory budgets.
+(1) compression side: the workspace allocator never fails on a reservation sequence that fits (two alignment gaps of < 64 bytes);
+    the reservation sequence of ZSTD_resetCCtx_internal for ANY resolved parameters fits in the estimate computed by the shared
+    sizing routine; hence a static context of the estimated size, at any 8-byte-aligned address, serves the session without a
+    failed reservation - the first time and after every ZSTD_cwksp_clear.
+(2) decompression side: the streaming decoder never holds buffers larger than the documented function of its window limit,
+    and refuses frames that need more.
 -/
 import ZstdVerif.Model.DBuf
+import ZstdVerif.Model.Estimate
+import ZstdVerif.Lemmas.Cwksp
+set_option linter.unusedSimpArgs false
 namespace ZstdVerif.Props.C14
-open ZstdVerif ZstdVerif.DBuf ZstdVerif.Gen
+open ZstdVerif ZstdVerif.DBuf ZstdVerif.Gen ZstdVerif.Cwksp ZstdVerif.Estimate
+
+/-! ### compression workspace -/
+
+/-- the object sizes the code reserves are already multiples of sizeof(void*): reserve_object's rounding adds nothing -/
+theorem object_sizes_rounded :
+    align sizeof_ZSTD_CCtx 8 = sizeof_ZSTD_CCtx ∧ align sizeof_blockState 8 = sizeof_blockState ∧
+    align TMP_WORKSPACE_SIZE 8 = TMP_WORKSPACE_SIZE := by decide
+
+/-- **estimate_covers_reset**: for ANY resolved parameters (every window / hash / chain log, strategy, row finder, LDM,
+external sequences, block size, buffers, pledged size), the rounded sizes of everything ZSTD_resetCCtx_internal reserves,
+plus the alignment slack, are within what the shared sizing routine returns.  Needs ldm hashLog ≥ 3 (the setter's minimum is 6):
+the estimate sizes the LDM hash table unrounded. -/
+theorem estimate_covers_reset (p : RP) (hldm : p.ldm = true → 3 ≤ p.ldmHashLog) :
+    need (reserveSeq p) + cwksp_slack ≤ estimate p := by
+  obtain ⟨hc, hb, ht⟩ := object_sizes_rounded
+  have hl : p.ldm = true → align (ldmHSize p * sizeof_ldmEntry) 64 = ldmHSize p * sizeof_ldmEntry := by
+    intro h; exact ldm_table_aligned _ (hldm h)
+  unfold reserveSeq objectReqs sessionReqs estimate sizeofMatchState optSpace a64
+  cases hst : p.isStatic <;> cases hr : rowUsed p <;> cases ho : isOpt p <;> cases hx : p.extSeq <;> cases hm : p.ldm <;>
+    simp only [need, if_true, if_false, Bool.false_eq_true, List.map_nil, List.sum_nil, Req.bytes, List.map_cons, List.sum_cons,
+      List.nil_append, List.cons_append, List.map_append, List.sum_append, hb, ht, hc] <;>
+    (try rw [hl hm]) <;> omega
+
+/-- **static_never_fails**: a workspace of at least the estimated size, at any address, serves the whole reservation sequence:
+no reservation fails, none returns NULL for a non-empty request (so the 'static cctx: no resize' branch is never needed). -/
+theorem static_never_fails (p : RP) (lo size : Nat) (hldm : p.ldm = true → 3 ≤ p.ldmHashLog) (hsz : estimate p ≤ size) :
+    Clean (run (init lo size) (reserveSeq p)) := by
+  have h := estimate_covers_reset p hldm
+  apply init_run_clean
+  · unfold reserveSeq objectReqs sessionReqs
+    cases p.isStatic <;> cases rowUsed p <;> cases isOpt p <;> cases p.extSeq <;> cases p.ldm <;> rfl
+  · have : cwksp_slack = 128 := rfl
+    omega
+
+/-! ### streaming decoder -/
 
 /-- **dstream_buffers_le**: for every frame whose (clamped) window is within the limit W (W ≥ 1 KiB), whatever its content size
 field and block-size limit (≤ min(window, 128 KiB) as ZSTD_getFrameHeader computes it), the buffers the decoder allocates fit in
@@ -29,6 +72,28 @@ theorem dstream_window_refused (hw W : Nat) : windowAccepted hw W = false ↔ W 
   unfold windowAccepted effectiveWindow
   simp [Nat.not_le]
 
+/-- **never_holds_more**: whatever the stage decides (single pass, buffered, refused), the internal buffers it holds are within
+the documented function of the limit -/
+theorem never_holds_more (hw W : Nat) (fcs : Option Nat) (b out : Nat) (whole : Bool) (hb : b ≤ min hw ZSTD_BLOCKSIZE_MAX) :
+    held (loadHeader hw fcs b W out whole) ≤ estimateBuffers W := by
+  unfold loadHeader
+  split
+  · simp [held]
+  · split
+    · rename_i h
+      simpa [held, neededBuffers] using dstream_buffers_le hw W fcs b h hb
+    · simp [held]
+
+/-- **refused_iff**: a frame is refused exactly when it cannot be decoded without internal buffers and its (clamped) window
+exceeds the limit -/
+theorem refused_iff (hw W : Nat) (fcs : Option Nat) (b out : Nat) (whole : Bool) :
+    loadHeader hw fcs b W out whole = .refused ↔ (singlePassOk fcs out whole = false ∧ W < max hw (2 ^ ZSTD_WINDOWLOG_ABSOLUTEMIN)) := by
+  unfold loadHeader
+  cases hs : singlePassOk fcs out whole <;> cases ha : windowAccepted hw W <;> simp
+  · exact (dstream_window_refused hw W).mp ha
+  · unfold windowAccepted effectiveWindow at ha
+    simpa using ha
+
 /-- the estimate is monotone in the window limit: a larger limit never budgets less -/
 theorem estimate_monotone (a b : Nat) (h : a ≤ b) : estimateBuffers a ≤ estimateBuffers b := by
   unfold estimateBuffers decodingBufferSize
@@ -42,5 +107,6 @@ theorem fcs_shrinks (w : Nat) (n b : Nat) : decodingBufferSize w (some n) b ≤ 
 
 example : estimateBuffers (1 <<< 17) = 131072 + (131072 + 262144 + 64) := by decide
 example : windowAccepted 1048576 32768 = false ∧ windowAccepted 5 1024 = true := by decide
+example : loadHeader 1048576 (some 300) 131072 1024 1000 true = .singlePass ∧ loadHeader 1048576 (some 300) 131072 1024 1000 false = .refused := by decide
 
 end ZstdVerif.Props.C14
